@@ -66,8 +66,9 @@ class Undecided(Exception):
     pass
 
 
-def affixes(fn, node, pm, depth=0):
-    """Set of (prefix, suffix) constant strings concatenated around ``node`` before it reaches a sink."""
+def affixes(fn, node, pm, depth=0, repo=None, cls=None):
+    """Set of (prefix, suffix, sink) around ``node``: the constant strings concatenated to it before it reaches a
+    sink; ``sink`` is "return" when the resulting value is what the function returns, else "use"."""
     pre, suf = "", ""
     while True:
         p = pm.get(id(node))
@@ -104,41 +105,121 @@ def affixes(fn, node, pm, depth=0):
                     and isinstance(n.ctx, ast.Load)]
             out = set()
             for u in uses:
-                for a, b in affixes(fn, u, pm, depth + 1):
-                    out.add((a + pre, suf + b))
-            return out or {(pre, suf)}
-        return {(pre, suf)}
+                for a, b, k in affixes(fn, u, pm, depth + 1, repo, cls):
+                    out.add((a + pre, suf + b, k))
+            return out or {(pre, suf, "use")}
+        if isinstance(p, ast.Call) and self_call(p) and repo is not None and p.func.attr not in PROTOCOL and depth <= 4 \
+                and (node in p.args or any(k.value is node for k in p.keywords)):
+            # the key is handed to a repo-local helper: follow it when the helper returns its argument with affixes
+            h = repo.lookup_method(cls, p.func.attr)
+            b = astq.bind_call(h[1], p, skip_self=True) if h else None
+            pname = [k for k, v in (b or {}).items() if v is node]
+            if h and h[1] is not fn and len(pname) == 1 and not astq.assigned_in(h[1], pname[0]):
+                hfn = h[1]
+                hpm = S.parent_map(hfn)
+                inner = set()
+                for u in astq.walk_no_nested(hfn):
+                    if isinstance(u, ast.Name) and u.id == pname[0] and isinstance(u.ctx, ast.Load):
+                        inner |= {x for x in affixes(hfn, u, hpm, depth + 1, repo, cls) if x[2] == "return"}
+                if len(inner) == 1:
+                    (hp, hs, _), = inner
+                    pre, suf = hp + pre, suf + hs
+                    node = p
+                    continue
+        return {(pre, suf, "return" if isinstance(p, ast.Return) else "use")}
 
 
-def key_templates(repo, cls, fn):
-    """KeyTemplates of the ``self._generate_key(...)`` calls in method ``fn`` analysed for class ``cls``."""
+PROTOCOL = {"save_predictions", "check_predictions_exist", "load_predictions", "save_fitted_strategy",
+            "check_fitted_strategy_exists", "load_fitted_strategy", "_append_key", "_iter", "save", "_generate_key"}
+MAX_HELPER_DEPTH = 3
+
+
+def _bind_roles(keyfn, call, env, who):
+    b = astq.bind_call(keyfn, call, skip_self=True)
+    if b is None or any(k in b for k in ("*", "**", "!unknown", "*extra", "**extra")):
+        raise Undecided("%s: _generate_key call cannot be bound" % who)
+    roles = {}
+    for pname in astq.param_names(keyfn, skip_self=True):
+        role = ROLE_OF_PARAM.get(pname)
+        if role is None:
+            raise Undecided("_generate_key parameter %r has no known role" % pname)
+        if pname not in b:
+            raise Undecided("%s: _generate_key called without %s" % (who, pname))
+        roles[role] = S.subst(b[pname], env)
+    return roles
+
+
+def key_templates(repo, cls, fn, depth=0, returned_only=False):
+    """KeyTemplates of method ``fn`` analysed for class ``cls``: one per place where a storage key is built, either by
+    ``self._generate_key(...)`` directly or through a repo-local helper method ``self.<helper>(...)`` that returns
+    such a key (helpers are inlined with their parameters bound to the actual arguments, up to MAX_HELPER_DEPTH levels;
+    affixes added inside the helper and around the helper call are composed).  ``returned_only``: only the keys that
+    flow into the function's return value (what a caller of a helper receives)."""
     hit = repo.lookup_method(cls, "_generate_key")
     if hit is None:
         raise AnalysisError("no _generate_key for %s" % cls.name)
     keyfn = hit[1]
     pm = S.parent_map(fn)
+    who = "%s.%s" % (cls.name, fn.name)
     out = []
     for c in astq.calls(fn):
-        if not self_call(c, "_generate_key"):
+        if not self_call(c):
             continue
-        b = astq.bind_call(keyfn, c, skip_self=True)
-        if b is None or any(k in b for k in ("*", "**", "!unknown", "*extra", "**extra")):
-            raise Undecided("%s.%s: _generate_key call cannot be bound" % (cls.name, fn.name))
-        env = S.env_at(fn, c)
-        roles = {}
-        for pname in astq.param_names(keyfn, skip_self=True):
-            role = ROLE_OF_PARAM.get(pname)
-            if role is None:
-                raise Undecided("_generate_key parameter %r has no known role" % pname)
-            if pname not in b:
-                raise Undecided("%s.%s: _generate_key called without %s" % (cls.name, fn.name, pname))
-            roles[role] = S.subst(b[pname], env)
-        afx = affixes(fn, c, pm)
-        if len(afx) != 1:
-            raise Undecided("%s.%s: key used with different affixes %s" % (cls.name, fn.name, sorted(afx)))
-        (pre, suf), = afx
-        out.append(KeyTemplate(c, keyfn, roles, pre, suf))
+        m = c.func.attr
+        if m == "_generate_key":
+            roles = _bind_roles(keyfn, c, S.env_at(fn, c), who)
+            inner = [("", "", keyfn)]
+        elif m not in PROTOCOL and depth < MAX_HELPER_DEPTH:
+            h = repo.lookup_method(cls, m)
+            if h is None or h[1] is fn:
+                continue
+            hcls, hfn = h
+            sub = key_templates(repo, cls, hfn, depth + 1, returned_only=True)
+            if not sub:
+                continue
+            if len(sub) != 1:
+                raise Undecided("%s: helper %s returns %d different keys" % (who, m, len(sub)))
+            t = sub[0]
+            b = astq.bind_call(hfn, c, skip_self=True)
+            if b is None or any(k in b for k in ("*", "**", "!unknown", "*extra", "**extra")):
+                raise Undecided("%s: call of helper %s cannot be bound" % (who, m))
+            env = S.env_at(fn, c)
+            henv = {pn: S.subst(v, env) for pn, v in b.items() if isinstance(v, ast.AST)}
+            for pn, dv in astq.param_defaults(hfn).items():
+                henv.setdefault(pn, dv)
+            hparams = set(astq.all_param_names(hfn, skip_self=True))
+            roles = {}
+            for role, e in t.roles.items():
+                free = {n.id for n in ast.walk(e) if isinstance(n, ast.Name) and n.id in hparams}
+                if not free <= set(henv):
+                    raise Undecided("%s: helper %s called without %s" % (who, m, ", ".join(sorted(free - set(henv)))))
+                roles[role] = S.subst(e, henv)
+            inner = [(t.prefix, t.suffix, t.keyfn)]
+        else:
+            continue
+        afx = affixes(fn, c, pm, 0, repo, cls)
+        if returned_only:
+            afx = {a for a in afx if a[2] == "return"}
+            if not afx:
+                continue
+        shapes = {(a[0], a[1]) for a in afx}
+        if len(shapes) != 1:
+            raise Undecided("%s: key used with different affixes %s" % (who, sorted(shapes)))
+        (pre, suf), = shapes
+        ipre, isuf, kf = inner[0]
+        out.append(KeyTemplate(c, kf, roles, pre + ipre, isuf + suf))
     return out
+
+
+def mentions_key(repo, cls, fn, expr):
+    """Does ``expr`` (already rewritten by the symbolic environment of ``fn``) contain one of the key-building
+    calls of ``fn`` (direct or through a helper)?"""
+    try:
+        tpls = key_templates(repo, cls, fn)
+    except Undecided:
+        return False
+    want = {astq.canon(S.resolve_at(fn, t.call, t.call)) for t in tpls}
+    return any(isinstance(n, ast.Call) and astq.canon(n) in want for n in ast.walk(expr))
 
 
 def registry_roles(repo):
@@ -372,7 +453,7 @@ def rule_R3(ctx, repo):
                     ctx.undecided("R3", c, "expected one os.path.isfile probe, found %d" % len(probes), ctx.loc(dcls.module, fn))
                     continue
                 arg = S.resolve_at(fn, probes[0].args[0], probes[0])
-                on_key = contains_call_to(arg, lambda k: self_call(k, "_generate_key"))
+                on_key = mentions_key(repo, cls, fn, arg)
                 r = returns_atom(fn, lambda k: k is probes[0])
                 if not on_key:
                     ctx.undecided("R3", c, "the probed path is not the generated key: %s" % astq.canon(arg), ctx.loc(dcls.module, fn))
@@ -477,7 +558,7 @@ def rule_R3_fields(ctx, repo, reg_pos):
                     rd = m["H_R"]
                     sym = repo.resolve_expr(dcls.module, rd.func) if isinstance(rd, ast.Call) else None
                     if sym is None or sym.dotted != "pandas.read_csv" or not rd.args or \
-                            not contains_call_to(rd.args[0], lambda k: self_call(k, "_generate_key")):
+                            not mentions_key(repo, hdd, fn, rd.args[0]):
                         ctx.undecided("R3", c, "field is not read from read_csv(<key>): %s" % astq.canon(rd)[:80], loc)
                     elif col not in written and written:
                         ctx.violation("R3", c, "field %s is read from column %r which save_predictions never writes" % (f, col), loc)
@@ -524,8 +605,8 @@ def rule_R3_fields(ctx, repo, reg_pos):
                 ok = None
                 if len(loads) == 1:
                     k2 = S.resolve_at(lfn, loads[0].slice, loads[0])
-                    ok = (loads[0].value.attr == st.value.attr and contains_call_to(k1, lambda k: self_call(k, "_generate_key"))
-                          and contains_call_to(k2, lambda k: self_call(k, "_generate_key")))
+                    ok = (loads[0].value.attr == st.value.attr and mentions_key(repo, ram, fn, k1)
+                          and mentions_key(repo, ram, lfn, k2))
                 ctx.check(ok, "R3", "RAMResults:mapping", "records stored in and read from self.%s[key]" % st.value.attr,
                           "save_predictions stores into self.%s but load_predictions reads elsewhere" % st.value.attr, ctx.loc(rl[0].module, lfn))
 
@@ -702,8 +783,38 @@ FLAGS = {
 }
 
 
+def single_return(fn):
+    """The returned expression of a helper whose body is (docstring +) one ``return <expr>``, else None."""
+    body = [st for st in fn.body if not (isinstance(st, ast.Expr) and isinstance(st.value, ast.Constant))]
+    if len(body) == 1 and isinstance(body[0], ast.Return) and body[0].value is not None:
+        return body[0].value
+    return None
+
+
 class Consumer:
     """One Orchestrator method that iterates ``self._iter()``."""
+
+    def inline_helper(self, call, closed=False, depth=0):
+        """``self.<helper>(...)`` with a single-return body -> its returned expression over the caller's terms."""
+        if not self_call(call) or depth > 3:
+            return None
+        h = self.repo.lookup_method(self.cls, call.func.attr)
+        if h is None or h[1] is self.fn:
+            return None
+        ret = single_return(h[1])
+        b = astq.bind_call(h[1], call, skip_self=not self.cls.is_static(call.func.attr)) if ret is not None else None
+        if b is None or any(k in b for k in ("*", "**", "!unknown")):
+            return None
+        env = {}
+        for pn, v in b.items():
+            if isinstance(v, ast.AST):
+                env[pn] = v if closed else self.sub(v, call)
+        for pn, dv in astq.param_defaults(h[1]).items():
+            env.setdefault(pn, dv)
+        free = {n.id for n in ast.walk(ret) if isinstance(n, ast.Name) and n.id in astq.all_param_names(h[1], skip_self=True)}
+        if not free <= set(env):
+            return None
+        return S.subst(ret, env)
 
     def __init__(self, repo, cls, name, roles):
         self.repo, self.cls, self.name = repo, cls, name
@@ -738,8 +849,9 @@ class Consumer:
                     out.append((c, c.func.attr))
         return out
 
-    def caller_key(self, call, mname):
-        """Key probed / written by a results call, in caller terms: (S, D, F, P, prefix, suffix) canonical strings."""
+    def caller_key(self, call, mname, closed=False):
+        """Key probed / written by a results call, in caller terms: (S, D, F, P, prefix, suffix) canonical strings.
+        ``closed``: ``call`` is a synthetic expression already written over parameters and roles (an inlined helper)."""
         h = self.repo.lookup_method(self.hdd, mname)
         if h is None:
             return None
@@ -754,7 +866,7 @@ class Consumer:
         if len(tpls) != 1:
             return None
         t = tpls[0]
-        env = S.env_at(self.fn, call)
+        env = {} if closed else S.env_at(self.fn, call)
         menv = {p: S.subst(v, env) for p, v in b.items() if isinstance(v, ast.AST)}
         mparams = set(astq.all_param_names(mfn, skip_self=True))
         parts = []
@@ -792,8 +904,29 @@ def analyse_fit_predict(ctx, repo, flow, roles):
     body_starts = [s for s, lab in header.succ if lab is True]
     unresolved = set()
 
+    def closed_atom(e, depth=0):
+        """atom of a synthetic (inlined) expression written over parameters and roles"""
+        if isinstance(e, ast.Name) and e.id in cons.params and not astq.assigned_in(fn, e.id):
+            return P.Atom(("flag", e.id))
+        if isinstance(e, ast.Call) and isinstance(e.func, ast.Attribute) and e.func.attr in (
+                "check_predictions_exist", "check_fitted_strategy_exists") and astq.is_self_attr(e.func.value, attr="results"):
+            key = cons.caller_key(e, e.func.attr, closed=True)
+            if key is not None:
+                return P.Atom(("exists", key))
+        if isinstance(e, ast.Call) and depth < 3:
+            inl = cons.inline_helper(e, closed=True, depth=depth)
+            if inl is not None:
+                return P.from_ast(inl, lambda x: closed_atom(x, depth + 1))
+        k = ("opaque", astq.canon(e))
+        unresolved.add(k)
+        return P.Atom(k)
+
     def atom_of_at(node):
         def atom_of(e):
+            if isinstance(e, ast.Call) and self_call(e):
+                inl = cons.inline_helper(e)
+                if inl is not None:
+                    return P.from_ast(inl, closed_atom)
             if isinstance(e, ast.Name):
                 if e.id in cons.params and not astq.assigned_in(fn, e.id):
                     return P.Atom(("flag", e.id))
@@ -910,9 +1043,24 @@ def analyse_fit_predict(ctx, repo, flow, roles):
         for fl in (en, ow):
             if fl is not None and ("flag", fl) not in keys:
                 keys.append(("flag", fl))
+    hidden = []
+    for c in astq.calls(fn):
+        node = g.node_of(c)
+        if self_call(c) and node is not None and node.id in in_body:
+            h = repo.lookup_method(cls, c.func.attr)
+            if h is not None and any(isinstance(n, ast.Attribute) and n.attr in ("save_predictions", "save_fitted_strategy")
+                                     for n in ast.walk(h[1])):
+                hidden.append(c.func.attr)
     for kind in FLAGS:
         if kind not in stores:
-            ctx.violation("R2", "%s:store[%s]:present" % (tag, kind), "no call stores the %s record" % kind, ctx.loc(mod, cons.loop))
+            if hidden:
+                ctx.undecided("R2", "%s:store[%s]:present" % (tag, kind), "no direct call stores the %s record; the loop calls helper(s) %s that "
+                              "store records -- stores inside helper methods are not followed" % (kind, ", ".join(sorted(set(hidden)))),
+                              ctx.loc(mod, cons.loop))
+            else:
+                ctx.violation("R2", "%s:store[%s]:present" % (tag, kind), "no call stores the %s record" % kind, ctx.loc(mod, cons.loop))
+    if hidden and set(stores) != set(FLAGS):
+        return cons
     if odd:
         ctx.undecided("R1", tag + ":loop-body", "nested loop in the loop body: decisions are not a pure function of the atoms",
                       ctx.loc(mod, odd[0].stmt))
@@ -1273,27 +1421,76 @@ def rule_R5_rest(ctx, repo, flow, cons, reg_pos):
         dump_ids = {gs.node_of(c).id for c in dumps if c.args and isinstance(c.args[0], ast.Name) and c.args[0].id == "self"}
         ctx.check(gs.must_pass(lambda n: n.id in dump_ids), "R5", "HDDBaseResults.save:dump-all-paths",
                   "the registry object is dumped on every path", "some path through save() does not dump the registry", ctx.loc(m, sv))
-        loads = [c for c in astq.calls(sv) if ext(c, ("joblib.load", "pickle.load"))]
-        for attr in ("strategy_names", "dataset_names"):
-            c0 = "HDDBaseResults.save:merge:" + attr
-            st = [(a, v, n) for a, v, n in astq.self_attr_stores(sv) if a == attr]
-            if not loads:
-                ctx.violation("R5", c0, "an existing results file is overwritten without being read: names registered by earlier runs are lost", ctx.loc(m, sv))
-                continue
-            if len(st) != 1 or st[0][1] is None:
-                ctx.check(None if st else False, "R5", c0, "", "self.%s is not merged with the names of the existing results file" % attr, ctx.loc(m, sv))
-                continue
-            val = S.resolve_at(sv, st[0][1], st[0][2])
-            has_self = any(astq.is_self_attr(n, attr=attr) for n in ast.walk(val))
-            has_old = any(isinstance(n, ast.Attribute) and n.attr == attr and isinstance(n.value, ast.Call) and ext(n.value, ("joblib.load", "pickle.load"))
-                          for n in ast.walk(val))
-            union = any(isinstance(n, ast.BinOp) and isinstance(n.op, (ast.Add, ast.BitOr)) for n in ast.walk(val)) or \
-                any(isinstance(n, ast.Call) and isinstance(n.func, ast.Attribute) and n.func.attr in ("union", "extend") for n in ast.walk(val))
-            node = gs.node_of(st[0][2])
-            before = bool(gs.may_reach_after(node, lambda n: n.id in dump_ids))
-            ctx.check(has_self and has_old and union and before, "R5", c0, "union of own and previously saved %s, then dumped" % attr,
-                      "self.%s is not the union of the new and the previously saved names before the dump (%s)" % (attr, astq.canon(val)[:80]),
-                      ctx.loc(m, st[0][2]))
+        merge_by_interpretation(ctx, repo, hb, sv)
+
+
+class _Store:
+    """Model of a results object for the interpreted ``save``: plain attributes, ``path`` fixed."""
+
+    def __init__(self, attrs):
+        self.attrs = dict(attrs)
+
+    def m_getattr(self, interp, attr):
+        if attr in self.attrs:
+            return self.attrs[attr]
+        from ._c18_mini import Undecided as U
+        raise U("results object has no modelled attribute %r" % attr)
+
+    def m_setattr(self, interp, attr, v):
+        self.attrs[attr] = v
+
+
+def merge_by_interpretation(ctx, repo, hb, sv):
+    """HDDBaseResults.save is interpreted (token interpreter of C18) on a registry that partly overlaps the one
+    already on disk: what is dumped must list every own and every previously saved name exactly once, per list."""
+    from ._c18_mini import Interp, PyRaise, Undecided as U
+    m = hb.module
+    loc = ctx.loc(m, sv)
+    own = {"strategy_names": ["s_new", "s_both", "x_shared"], "dataset_names": ["d_new", "d_both", "x_shared"]}
+    old = {"strategy_names": ["s_both", "s_old"], "dataset_names": ["d_both", "d_old", "x_shared"]}
+    for exists in (True, False):
+        dumped = []
+        me = _Store(dict({k: list(v) for k, v in own.items()}, path="/res", _path="/res", cv=None))
+        prev = _Store({k: list(v) for k, v in old.items()})
+
+        def _dump(interp, args, kwargs, node):
+            obj = args[0]
+            dumped.append({k: list(obj.attrs.get(k, [])) for k in own} if isinstance(obj, _Store) else None)
+
+        ext = {
+            "os.path.join": lambda i, a, k, n: "/".join(a),
+            "os.path.isfile": lambda i, a, k, n: exists,
+            "os.path.exists": lambda i, a, k, n: exists,
+            "joblib.dump": _dump, "pickle.dump": _dump,
+            "joblib.load": lambda i, a, k, n: prev, "pickle.load": lambda i, a, k, n: prev,
+        }
+        tag = "HDDBaseResults.save:%s" % ("merge" if exists else "first-save")
+        try:
+            Interp(repo, ext).call_function(m, sv, [me])
+        except U as e:
+            ctx.undecided("R5", tag, str(e), loc)
+            continue
+        except PyRaise as e:
+            ctx.violation("R5", tag, "save() raises %s when the master file %s" % (e.exc, "exists" if exists else "does not exist"), loc)
+            continue
+        if len(dumped) != 1 or dumped[0] is None:
+            ctx.check(False if not dumped else None, "R5", tag, "", "save() dumps %d objects (expected: the registry once)" % len(dumped), loc)
+            continue
+        for attr in own:
+            got = dumped[0][attr]
+            want = set(own[attr]) | (set(old[attr]) if exists else set())
+            c0 = "%s:%s" % (tag, attr)
+            missing, extra = sorted(want - set(got)), sorted(set(got) - want)
+            dup = sorted({x for x in got if got.count(x) > 1})
+            if missing or extra:
+                ctx.violation("R5", c0, "with own names %s and saved names %s the dumped %s is %s: %s" % (
+                    own[attr], old[attr] if exists else [], attr, got,
+                    "; ".join(x for x in ("lost: %s" % missing if missing else "", "foreign: %s" % extra if extra else "") if x)), loc)
+            elif dup:
+                ctx.violation("R5", c0, "with own names %s and saved names %s the dumped %s is %s: %s listed more than once, so "
+                              "load_predictions yields those records repeatedly" % (own[attr], old[attr] if exists else [], attr, got, dup), loc)
+            else:
+                ctx.ok("R5", c0, "dumped %s = own ∪ previously saved names, each once" % attr, loc)
 
 
 EMBEDDED_DELETER = """
